@@ -188,8 +188,11 @@ def run_check(P, tier, seed):
     ev_cov = {}
     exit_code = 0
 
-    # 0. gates
-    hits = vlib.forbidden_scan()
+    # 0. gates (the files this property depends on; setup scans every registered property)
+    gate_files = []
+    for t in P.model_targets + P.proof_targets:
+        vlib.coq_deps(t[:-3] + ".v", gate_files)
+    hits = vlib.forbidden_scan(gate_files)
     if hits:
         log("forbidden vernacular in the development: %s" % hits[:5])
         violation(P, {"broken": "forbidden-vernacular", "hits": hits[:20]}, "no-failing-input-found")
